@@ -10,6 +10,7 @@ from props import c01
 
 ID = 'C10'
 LEAN_MODULES = ['PybtexModel.Props.C10']
+DRV = ['C01']     # uses the bibparse op of the C01 driver module
 THEOREMS = {
     'C10_total': 'total: for every text, mode, wanted-set, macro table the reader model never runs out of fuel or takes an impossible branch (no error of kind internal reported or raised); when nothing is raised the whole text was read (no "@" left)',
     'C10_total_wellnested': 'total: with well nested initial macro values (the month names are) the BibTeXError of Person() (nesting > 100) is never reported or raised, so continue mode raises nothing at all: values read are balanced and at most 100 deep, every name piece is a segment of such a value',
